@@ -241,17 +241,21 @@ Proof. repeat split; vm_compute; reflexivity. Qed.
    skel_of_code computes RangeWriter.Skeleton() from the generated text: the literal of every WriteString line, the
    generated-date line and the Line/Col numbers of templ.Error lines are left out (compared with the real field byte
    for byte on every generated file by the harness).  The file is read as a program of LINES: a WriteString line is
-   the call with the index written in it, every other line is an opaque statement with an arbitrary meaning (state
-   change, output, jump) - any semantics of the Go text in which WriteString does what the runtime does. *)
+   what precedes the call (an opaque statement) and the call with the index written in it, every other line is an
+   opaque statement with an arbitrary meaning (state change, output, jump) - any semantics of the Go text in which
+   WriteString does what the runtime does. *)
 
-(* ws_parse recognises exactly the WriteString lines  TABS prefix DIGITS, "LIT")  and the skeleton of such a line is
-   the line with an empty literal; the skeleton of any other line is the line without its error position, which is
-   never mistaken for a WriteString line *)
+(* ws_parse recognises exactly the lines  PRE call-text DIGITS, "LIT")  in which the call text first occurs where PRE
+   ends (PRE is the indentation, on the first line of a case body preceded by the case clause; in particular every
+   line TABS call); the skeleton of such a line is the line with an empty literal; the skeleton of any other line is
+   the line without its error position, which is never mistaken for a WriteString line *)
 Theorem C16_ws_line_recognised :
-  (forall l tb ds lit, ws_parse l = Some (tb, ds, lit) ->
-     l = ws_line tb ds lit /\ forallb is_tab tb = true /\ forallb is_digit ds = true /\ ds <> []) /\
-  (forall tb ds lit, forallb is_tab tb = true -> forallb is_digit ds = true -> ds <> [] ->
-     ws_parse (ws_line tb ds lit) = Some (tb, ds, lit) /\ skel_line (ws_line tb ds lit) = ws_line tb ds []) /\
+  (forall l pre ds lit, ws_parse l = Some (pre, ds, lit) ->
+     l = ws_line pre ds lit /\ (forall t, find_sub ws_prefix (pre ++ ws_prefix ++ t) = Some (pre, t)) /\
+     forallb is_digit ds = true /\ ds <> []) /\
+  (forall pre ds lit, (forallb is_tab pre = true \/ forall t, find_sub ws_prefix (pre ++ ws_prefix ++ t) = Some (pre, t)) ->
+     forallb is_digit ds = true -> ds <> [] ->
+     ws_parse (ws_line pre ds lit) = Some (pre, ds, lit) /\ skel_line (ws_line pre ds lit) = ws_line pre ds []) /\
   (forall l, ws_parse l = None -> skel_line l = erase_pos l /\ ws_parse (erase_pos l) = None).
 Proof. exact ws_recognition. Qed.
 Print Assumptions C16_ws_line_recognised.
